@@ -15,6 +15,8 @@ pub struct Reply {
 pub struct State {
     /// the reply for the next request
     pub next: Option<Reply>,
+    /// this many of the next requests are read and then dropped without any answer (transport failure)
+    pub drop_next: u32,
     /// raw request heads, in arrival order
     pub heads: Vec<Vec<u8>>,
 }
@@ -65,6 +67,11 @@ impl HttpMock {
                         let reply = {
                             let mut s = st.lock().unwrap();
                             s.heads.push(head);
+                            if s.drop_next > 0 {
+                                s.drop_next -= 1;
+                                // the connection dies without an answer
+                                return;
+                            }
                             s.next.clone().unwrap_or(Reply { status: 500, body: b"no reply scripted".to_vec(), content_type: "text/plain" })
                         };
                         let mut out = format!("HTTP/1.1 {} {}\r\ncontent-type: {}\r\ncontent-length: {}\r\n\r\n", reply.status, reason(reply.status), reply.content_type, reply.body.len()).into_bytes();
